@@ -7,3 +7,11 @@ open Bpp
 #print axioms C02_residual_iff_recursive
 #print axioms C02_response_r1_unique
 #print axioms C02_response_d1_unique
+#print axioms C03_chunk_all_valid
+#print axioms C03_chunk_one_invalid
+#print axioms C03_chunk_at_most_one_weight
+#print axioms C03_result_aligned
+#print axioms C03_accept_iff
+#print axioms C03_refuses
+#print axioms C03_perm_chunk
+#print axioms C03_prefix_defect
